@@ -405,6 +405,15 @@ func c11GenReq(r *Rng, nchan, nsamp int, dir string) c11Req {
 	case c < 26: // ConfigurePulseLengths
 		ns := r.Pick(-1, 0, 1, 3, 4, 16, 32, 32, 64, 100)
 		np := r.Pick(-1, 0, 1, 2, 3, 8, 8, 15, 31, 32, 64)
+		if r.Chance(30) {
+			// around and beyond the 32-bit boundary: the handlers keep 32-bit copies of these lengths; pairs whose
+			// low 32 bits look like a valid (nsamp, npre) while the 64-bit values are not must be refused
+			big := [][2]int{{50, 1<<32 + 20}, {1<<32 + 5, 1<<33 + 4}, {1<<32 + 50, 1<<33 + 20}, {100, 1<<32 + 8},
+				{1<<31 - 1, 8}, {1 << 31, 8}, {1 << 32, 8}, {1<<32 + 50, 8}, {1<<33 + 40, 1<<32 + 8}, {64, 1 << 31},
+				{1<<32 + 64, 1<<32 + 8}, {1<<31 - 1, 1<<31 - 2}, {32, 1 << 32}, {1<<32 + 32, 1<<32 + 32}}
+			p := big[r.Intn(len(big))]
+			ns, np = p[0], p[1]
+		}
 		return c11Req{fmt.Sprintf("L %d %d", ns, np), func(h *lcH) (error, bool) {
 			return h.sc.ConfigurePulseLengths(dastard.SizeObject{Nsamp: ns, Npre: np}, &reply), false
 		}}
@@ -600,7 +609,8 @@ func c11GenOps(seed uint64, nchan int, dir string) []c11Op {
 		// the opening trigger request, where the lengths are still (32, 8) and writing is off.
 		ch := r.Intn(nchan)
 		rows := r.Pick(1, 2, 3)
-		lens := [][2]int{{16, 8}, {64, 8}, {32, 4}, {32, 16}, {16, 4}, {64, 16}, {32, 8}}[r.Intn(7)]
+		lens := [][2]int{{16, 8}, {64, 8}, {32, 4}, {32, 16}, {16, 4}, {64, 16}, {32, 8},
+			{50, 1<<32 + 20}, {1<<32 + 5, 1<<33 + 4}, {100, 1<<32 + 8}}[r.Intn(10)]
 		var reply bool
 		proj := c11Req{fmt.Sprintf("P %d 0 %d 32 32 %d", ch, rows, rows), func(h *lcH) (error, bool) {
 			pbo := &dastard.ProjectorsBasisObject{ChannelIndex: ch, ProjectorsBase64: c11Matrix(rows, 32),
